@@ -42,6 +42,13 @@ def src_value(rng, sname, dname):
     if c == 3:
         k = rng.randrange(0, sb)
         return "posrun", pat((1 << k) - 1, sb)
+    if c == 4:
+        # values whose bit length sits on a primitive width (8 .. 128): fast paths through u64 / i128 / u128
+        k = rng.choice([7, 8, 15, 16, 31, 32, 63, 64, 127, 128])
+        z = (1 << k) + rng.choice([-1, 0, 1]) if rng.random() < 0.6 else rng.randrange(1 << (k - 1), 1 << k) if k > 1 else 1
+        if ssigned and rng.random() < 0.4:
+            z = -z
+        return "prim-width-boundary", pat(z, sb)
     w = sw or 8
     n = sb // w
     t, v = value(rng, w, n)
@@ -65,6 +72,15 @@ def gen(rng, tier):
         for _ in range(reps):
             t, v = src_value(rng, s, d)
             yield f"cast {s} {d} {hx(v)}", t
+        # a fixed boundary set for EVERY ordered pair: bit lengths at primitive widths and at both type widths
+        sb, ssigned, _ = type_bits(s)
+        db, _, _ = type_bits(d)
+        ks = sorted(set(k for k in (8, 16, 32, 64, 128, sb, db, sb - 1, db - 1) if 0 < k <= sb))
+        for k in ks:
+            for z in ((1 << k) - 1, 1 << (k - 1)):
+                yield f"cast {s} {d} {hx(pat(z, sb))}", "pair-boundary"
+                if ssigned:
+                    yield f"cast {s} {d} {hx(pat(-z, sb))}", "pair-boundary"
     for d in bn:
         yield f"cast bool {d} 0", "bool"
         yield f"cast bool {d} 1", "bool"
